@@ -272,6 +272,13 @@ class PPWorld:
                 t['cancel'] = t['cancel'] or ev
                 self.cancel_events.append(ev)
                 self.dirty = True
+                if len(a) > 2 and a[2] == 'rename':
+                    # state-triggered: the cancelling thread is held at its first
+                    # scheduling point inside cancel() until a worker is inside
+                    # the final rename of this download
+                    key = ('rename', t['path'])
+                    sim.park_at_next_point(lambda: self.fs.entered.get(key, False), 800)
+                    self.probe('cancel-held-until-rename')
                 t['future'].cancel()
             elif op == 'result':
                 self._collect(self.transfers[a[1]])
@@ -410,6 +417,23 @@ def evaluate(w):
                             'process pool download %d success but file holds %r, object is %r'
                             % (tid, _short(cur), _short(t['expect'])),
                             {'variant': 'processpool'})
+        if oc[0] == 'exc':
+            # C06: after a failure the previous destination content is
+            # untouched; after a cancellation untouched or the complete object
+            cur = w.fs.files.get(t['path'])
+            cur = bytes(cur) if cur is not None else None
+            if cur != t['prev']:
+                if not isinstance(oc[1], CancelledError):
+                    w.violation('C06', 'dest-after-failure',
+                                'process pool download %d failed with %r but the destination '
+                                'holds %r, previous content was %r'
+                                % (tid, oc[1], _short(cur), _short(t['prev'])),
+                                {'variant': 'processpool'})
+                elif cur != t['expect']:
+                    w.violation('C06', 'dest-after-cancel',
+                                'process pool download %d was cancelled and the destination '
+                                'holds %r: neither the previous content nor the object'
+                                % (tid, _short(cur)), {'variant': 'processpool'})
         if oc[0] == 'exc' and not fired_fatal.get(tid) and t['cancel'] is None \
                 and not retry_by_job:
             w.violation('C19', 'spurious-failure',
@@ -512,8 +536,18 @@ def generate(prop, seed):
     est = 150 + 120 * sum(1 + (t['size'] // C) for t in transfers)
     script = [['submit', i] for i in range(n)]
     r = rng.random()
+    rename_fault = bool(faults) and faults[-1].get('op') == 'rename'
+    if rename_fault and rng.random() < 0.5:
+        r = 0.0        # a failing rename AND a cancel
     if r < 0.3:
-        script += [['wait_step', rng.randint(0, est)], ['cancel', rng.randrange(n)]]
+        act = ['cancel', rng.randrange(n)]
+        step = rng.randint(0, est)
+        if rng.random() < (0.7 if rename_fault else 0.3):
+            act.append('rename')       # land while the final rename is in progress
+            step = rng.randint(0, 20)
+            if rename_fault:
+                act[1] = i
+        script += [['wait_step', step], act]
         script += [['result', i] for i in range(n)] + [['shutdown']]
     elif r < 0.55:
         script += [['wait_step', rng.randint(0, est)], ['with_kbi']]
